@@ -413,7 +413,12 @@ pub fn script_text() -> impl Strategy<Value = String> {
         "5", "-3", "1,5", "0", "1 day", "2 hours", "11:30", "10 usd", "$5", "3 kg", "1 inch", "12/12/2020", "10%", "0x10", "today", "15:00 EST", "1 jan 2021", "2 weeks 3 days", "(", "", "1 +", "* 2", "hello", "99999999999999999999", "1 byte",
     ]);
     let op = prop::sample::select(vec!["+", "-", "*", "/", "", "to", "as", "of", "on", "in"]);
-    let line = (0u8..10, names, value.clone(), op, value).prop_map(|(k, n, a, o, b)| match k {
+    // (wave 9) names bound to a date-time, and a name directly followed by a zone word
+    let stamp = prop::sample::select(vec!["1646401739 to date", "1 jan 2021 at 10:30", "12/12/2020 at 11:30:15", "today at 9:00", "11:30", "1 jan 2021"]);
+    let zone = prop::sample::select(vec!["EST", "GMT+3", "utc", "CET", "to EST", "in GMT+3"]);
+    let line = (0u8..13, names, value.clone(), op, value, stamp, zone).prop_map(|(k, n, a, o, b, st, z)| match k {
+        10 | 11 => format!("{} = {}", n, st),
+        12 => format!("{} {}", n, z),
         0 | 1 => format!("{} = {}", n, a),
         2 | 3 => format!("{} = {} {} {}", n, a, o, b),
         4 => format!("{} {} {}", a, o, n),
